@@ -316,7 +316,9 @@ class IntroVisitor(ast.NodeVisitor):
         self._body_lines = function_body_lines
         self._input_sig = function_input_sig
         self._call_stack = call_stack
-        self._store_names: Set[LocalVar] = {current_fun_name}
+        # The name of the current function is not part of the names already seen: a function that
+        # refers to itself by name (for example to pass itself to another function) is recursive.
+        self._store_names: Set[LocalVar] = set()
         self.inters: List[FunctionInteractions] = []
         self.load_paths: List[DDSPath] = []
 
